@@ -126,6 +126,7 @@ func main() {
 	fn := flag.String("func", "", "function key")
 	timeout := flag.Int("timeout", 10, "")
 	dump := flag.Bool("dump", false, "")
+	quiet := flag.Bool("q", false, "print failures only")
 	flag.Parse()
 	en, err := loadEngine(*repo, *spec)
 	if err != nil {
@@ -178,13 +179,25 @@ func main() {
 				mark = "FAIL"
 				bad++
 			}
+			if *quiet {
+				if !ok {
+					w := o.Where
+					if j := strings.LastIndex(w, "/ "); j >= 0 {
+						w = w[j+2:]
+					}
+					fmt.Printf("FAIL %-7s %s [%s]\n", r.Status, o.Name, w)
+				}
+				continue
+			}
 			fmt.Printf("%s %-8s %-7s %5.2fs %s   [%s] %s\n", mark, r.Status, r.Backend, r.Time, o.Name, o.Where, o.Src)
 		}
-		for _, n := range vc.notes {
-			fmt.Println("  note:", n)
-		}
-		for _, n := range vc.assumed {
-			fmt.Println("  assumed:", n)
+		if !*quiet {
+			for _, n := range vc.notes {
+				fmt.Println("  note:", n)
+			}
+			for _, n := range vc.assumed {
+				fmt.Println("  assumed:", n)
+			}
 		}
 	}
 	if bad > 0 {
